@@ -25,7 +25,7 @@ META = {
         "rule": "shape family: every between-site/point/(partial) range/ambiguous span with coordinates in [0,8], their complements, joins and orders (and complements thereof) of 2 parts (thorough: 3 parts) from a 15-part pool incl. abutting, overlapping, single-base, zero-length and complemented parts, nesting 2; x every insertion index 0..8 x guest lengths {0,1,3}; Shift and Expand at location level, Insert and Embed at sequence level (host table = source + shape + another feature, guest with 0/1 feature), plus random tables of 0..5 features with nesting <= 2. Non-trivial = guest length > 0 (location level) / every sequence-level case; distinct = distinct case lines.",
         "assumptions": ["Go int as unbounded Z", "total theorems for locations without join(...) in the input (the joins produced by splitting are covered); _joins theorems cover every location up to adjacent duplicates under k1_after (no image point on an image range end): partial correctness; K1 shapes by correspondence + oracle",
                         "record-level theorems C02_insert_record / C02_embed_record: success, residues and the output table as a permutation of the relocated host and guest features (each once, key and qualifiers kept), under per-feature hypotheses ins_host_ok / emb_host_ok / guest_ok (k1_after + the operation returns a location)",
-                        "the partial-marker clause is checked on locations whose markers sit on outer ends only (INSDC well-formed): oracle + correspondence, no theorem"],
+                        "the partial-marker clause: theorems C02_insert_keeps_markers_partial / C02_embed_keeps_markers_partial for join-free locations with non-empty ranges (flags = markers on the outer ends in reading direction); joins in the input by oracle + correspondence on locations whose markers sit on outer ends only (INSDC well-formed)"],
     },
     "C03": {
         "sections": ["Arith.Max", "Arith.rangeWithin", "Arith.rangeOverlap"],
